@@ -39,7 +39,7 @@ TEval ==
 \* steps of the solver that make no evaluation
 TSilent ==
     /\ phase = "solve"
-    /\ SetAtol \/ Terminate \/ Classify \/ Runaway \/ GiveUp
+    /\ SetAtol \/ Terminate \/ (\E cl \in BOOLEAN : Classify(cl)) \/ Runaway \/ GiveUp
     /\ UNCHANGED <<tid, l, tv>>
 
 Abs(x) == IF x < 0 THEN -x ELSE x
@@ -54,6 +54,8 @@ TResult ==
             /\ e.typeOK                           \* DEFLAGRATION below vJ, DETONATION above
        /\ res.kind # "VELOCITY" => e.v = -1       \* no velocity reported
        /\ e.kind = "ERROR" <=> ~e.succ
+       \* a wall parameter on one of its bounds, or a temperature outside the tabulated ranges, is never reported as a velocity
+       /\ (e.pinned \/ ~e.inRange) => e.kind # "VELOCITY"
     /\ phase' = "post"
     /\ UNCHANGED <<vars, audit>>
 
